@@ -74,6 +74,15 @@ def gen1d(rng, tier):
         cap = rng.choice([None, None, rng.randrange(0, cnt[-1] + 3)])
         cases.append(dict(kind="1d", fam="C", cnt=cnt, cap=cap, cont=rng.random() < 0.5,
                           max_iter=rng.choice([15, 15, 15, 0, 1, 2, 3]), tmin=tmin, tmax=tmax))
+    # E: monotone thresholds whose excess values near the sign change are tiny (|excess| well below the 1e-3 K sizing tolerance):
+    #    the search decides on the SIGN of the excess, however small
+    for n in (5, 8, 13, 21) if tier == "quick" else (5, 8, 13, 21, 34, 55):
+        cnt = inc_counts(rng, n, "rand")
+        for t in range(1, n):
+            eps = rng.choice([F(1, 2000), F(1, 10000), F(3, 10000), F(1, 1000000)])
+            tmax = [(F(t - i) - F(1, 2)) * eps * rng.choice([1, 2, 3]) for i in range(n)]      # ... 1.5 eps, 0.5 eps, -0.5 eps, -1.5 eps ...
+            tmin = [v + F(1000) for v in tmax]
+            cases.append(dict(kind="1d", fam="E", cnt=cnt, cap=None, cont=False, max_iter=15, tmin=tmin, tmax=tmax))
     # D: long lists (bisection depth)
     for n in ([33, 64, 100] if tier == "quick" else [33, 64, 100, 257, 1000]):
         cnt = list(range(1, n + 1))
